@@ -24,7 +24,7 @@
 //!    store is driven to the stall threshold: the failed compaction must be off the `ongoing` list
 //!    (every later `sched.select` that found nothing reports the list's length, `verif_status` at
 //!    the end), every call returns.
-//!  * `wl` (the wait list of `KeyValueStore::write`; hooks/lsmtk-kvs-write-failed-events.diff): the
+//!  * `wl` (the wait list of `KeyValueStore::write`; /repo commit f09c928): the
 //!    kvs real-thread grid with writers whose writes FAIL in 10..50% of their calls (the empty batch,
 //!    a batch whose last key / value is over-long: refused by the log after the write has taken its
 //!    place in the wait list), and a directed schedule in which one slow write is parked right after
@@ -1494,7 +1494,7 @@ fn run_ring(rec: &mut Recorder, case: u64) {
     rec.aux(&format!("run {} {} failed-before-release={} of {} wrong-results={}", case, label, before, n, wrong.load(Ordering::SeqCst)));
     rec.count("run.ring");
     let verdict = if !parked {
-        Verdict::Fail { class: "run-setup-error".into(), detail: "the slow write never reached kvs.write.linked (hooks/lsmtk-kvs-write-failed-events.diff missing?)".into() }
+        Verdict::Fail { class: "run-setup-error".into(), detail: "the slow write never reached kvs.write.linked (/repo commit f09c928 missing?)".into() }
     } else if !(sd && fd) {
         Verdict::Fail {
             class: "client-call-never-returned".into(),
